@@ -11,6 +11,7 @@ import (
 	"time"
 
 	"servitor/verifshim/simexec"
+	"servitor/verifshim/simos"
 	"servitor/verifshim/simrt"
 )
 
@@ -365,6 +366,9 @@ func uiLiveness(r *Run, u *UISession, quiet bool) {
 	u.mu.Lock()
 	subFailed := u.subDone && u.subErr != nil
 	pending := u.keysOut - u.keysBack
+	if u.mainMode {
+		pending = simos.Unread() // typed and never read by main.go's keyboard loop
+	}
 	u.mu.Unlock()
 	if subFailed {
 		// a failing Subcommand keeps the lock on purpose (main.go then exits): excluded by the statement
